@@ -1,78 +1,130 @@
 import PolyVerif.Model.Uniprot
 import PolyVerif.Lemmas.Chan
 /-
-Helper lemmas for C20: the shape of the producer program of uniprot.Parse.
+Helper lemmas for C20: the shape of the producer program of uniprot.Parse
+(entry sends, close entries, kept errors, close errors).
 -/
 namespace PolyVerif.Uniprot
 open PolyVerif PolyVerif.Chan
-
-def isSend : Op Msg → Bool
-  | .send _ _ => true
-  | .close _ => false
-
-theorem loop_sends : ∀ (saw : Bool) (evs : List Ev) (f : End),
-    ∀ op ∈ loop saw evs f, isSend op = true ∧ (op.chan = 0 ∨ op.chan = 1)
-  | saw, [], .eof => by cases saw <;> simp [loop, isSend, Op.chan]
-  | _, [], .err => by simp [loop, isSend, Op.chan]
-  | saw, .other :: r, f => by simpa [loop] using loop_sends saw r f
-  | _, .start :: r, f => by simpa [loop] using loop_sends true r f
-  | _, .entry e :: r, f => by
-    intro op hop
-    simp only [loop, List.mem_cons] at hop
-    rcases hop with rfl | hop
-    · simp [isSend, Op.chan]
-    · exact loop_sends true r f op hop
-  | _, .entryErr e :: r, f => by
-    intro op hop
-    simp only [loop, List.mem_cons] at hop
-    rcases hop with rfl | rfl | hop
-    · simp [isSend, Op.chan]
-    · simp [isSend, Op.chan]
-    · exact loop_sends true r f op hop
-
-theorem closesLast_append_sends (ch : Nat) : ∀ (p q : List (Op Msg)), (∀ op ∈ p, isSend op = true) →
-    closesLast ch (p ++ q) = closesLast ch q
-  | [], _, _ => rfl
-  | .send c v :: p, q, h => by
-    simpa [closesLast] using closesLast_append_sends ch p q (fun op hop => h op (by simp [hop]))
-  | .close c :: p, q, h => by
-    have := h (.close c) (by simp)
-    simp [isSend] at this
-
-theorem sendsBeforeClose0_append_sends : ∀ (p q : List (Op Msg)), (∀ op ∈ p, isSend op = true) →
-    sendsBeforeClose0 (p ++ q) = (sendsBeforeClose0 q).map (fun k => k + (sends 1 p).length)
-  | [], q, _ => by simp
-  | .send c v :: p, q, h => by
-    have ih := sendsBeforeClose0_append_sends p q (fun op hop => h op (by simp [hop]))
-    simp only [List.cons_append, sendsBeforeClose0, ih, Option.map_map, sends_send]
-    congr 1
-    funext k
-    by_cases hc : c = 1 <;> simp [hc] <;> omega
-  | .close c :: p, q, h => by
-    have := h (.close c) (by simp)
-    simp [isSend] at this
-
-theorem program_wf (t : Trace) : WFProg [0, 1] (program t) := by
-  have hl := loop_sends false t.evs t.fin
-  refine ⟨fun op hop => ?_, fun ch hch => ?_⟩
-  · simp only [program, List.mem_append, List.mem_cons, List.not_mem_nil, or_false] at hop
-    rcases hop with hop | rfl | rfl
-    · rcases (hl op hop).2 with h | h <;> simp [h]
-    · simp [Op.chan]
-    · simp [Op.chan]
-  · simp only [List.mem_cons, List.not_mem_nil, or_false] at hch
-    rcases hch with rfl | rfl
-    · exact ⟨by omega, by
-        rw [program, closesLast_append_sends 0 _ _ (fun op hop => (hl op hop).1)]; rfl⟩
-    · exact ⟨by omega, by
-        rw [program, closesLast_append_sends 1 _ _ (fun op hop => (hl op hop).1)]; rfl⟩
 
 theorem entriesOf_append (a b : List Ev) : entriesOf (a ++ b) = entriesOf a ++ entriesOf b := by
   induction a with
   | nil => rfl
   | cons ev a ih => cases ev <;> simp [entriesOf, ih]
 
-/-- the decoder-level notion of a damaged stream: some error is forwarded exactly when the trace is not `Clean` -/
+/-- the loop's sends are exactly the entries it met, in order -/
+theorem loop_fst : ∀ (saw : Bool) (evs : List Ev) (f : End),
+    (loop saw evs f).1 = (entriesOf evs).map (fun e => Op.send 0 (Msg.entry e))
+  | saw, [], .eof => rfl
+  | _, [], .err => rfl
+  | saw, .other :: r, f => by simpa [loop, entriesOf] using loop_fst saw r f
+  | _, .start :: r, f => by simpa [loop, entriesOf] using loop_fst true r f
+  | _, .entry e :: r, f => by simp [loop, entriesOf, loop_fst true r f]
+  | _, .entryErr e :: r, f => by simp [loop, entriesOf, loop_fst true r f]
+
+/-- the errors it keeps -/
+theorem loop_snd : ∀ (saw : Bool) (evs : List Ev) (f : End),
+    (loop saw evs f).2 = List.replicate (numErrorsFrom saw evs f) Msg.error
+  | saw, [], .eof => by cases saw <;> rfl
+  | saw, [], .err => by cases saw <;> rfl
+  | saw, .other :: r, f => by simpa [loop, numErrorsFrom, isErrEv, isStartEv] using loop_snd saw r f
+  | saw, .start :: r, f => by
+    have := loop_snd true r f
+    simpa [loop, numErrorsFrom, isErrEv, isStartEv] using this
+  | saw, .entry e :: r, f => by
+    have := loop_snd true r f
+    simpa [loop, numErrorsFrom, isErrEv, isStartEv] using this
+  | saw, .entryErr e :: r, f => by
+    have := loop_snd true r f
+    simp only [loop, this]
+    simp only [numErrorsFrom, List.filter_cons, isErrEv, if_true, List.length_cons, List.any_cons, isStartEv,
+      Bool.true_or, Bool.or_true]
+    rw [show (List.filter isErrEv r).length + 1 + finErrors true f = ((List.filter isErrEv r).length + finErrors true f) + 1 by omega]
+    rfl
+
+/-- the program in closed form -/
+theorem program_eq (t : Trace) :
+    program t = (entriesOf t.evs).map (fun e => Op.send 0 (Msg.entry e)) ++ [Op.close 0] ++
+      List.replicate (numErrors t) (Op.send 1 Msg.error) ++ [Op.close 1] := by
+  simp [program, loop_fst, loop_snd, numErrors]
+
+theorem sends0_map (es : List Entry) (q : List (Op Msg)) :
+    sends 0 (es.map (fun e => Op.send 0 (Msg.entry e)) ++ q) = es.map Msg.entry ++ sends 0 q := by
+  induction es with
+  | nil => rfl
+  | cons e es ih => simp [sends_send, ih]
+
+theorem sends1_map (es : List Entry) (q : List (Op Msg)) :
+    sends 1 (es.map (fun e => Op.send 0 (Msg.entry e)) ++ q) = sends 1 q := by
+  induction es with
+  | nil => rfl
+  | cons e es ih => simpa [sends_send] using ih
+
+theorem sends_errs (ch : Nat) (n : Nat) (q : List (Op Msg)) :
+    sends ch (List.replicate n (Op.send 1 Msg.error) ++ q) =
+      (if ch = 1 then List.replicate n Msg.error else []) ++ sends ch q := by
+  induction n with
+  | zero => by_cases h : ch = 1 <;> simp [h]
+  | succ n ih =>
+    by_cases h : ch = 1
+    · subst h; simp [List.replicate_succ, sends_send] at ih ⊢; exact ih
+    · have h' : ¬ 1 = ch := fun e => h e.symm
+      simp [List.replicate_succ, sends_send, h, h'] at ih ⊢; exact ih
+
+theorem sends0_program (t : Trace) : sends 0 (program t) = (entriesOf t.evs).map Msg.entry := by
+  rw [program_eq]
+  simp only [List.append_assoc]
+  rw [sends0_map, List.singleton_append, sends_close, sends_errs]
+  simp
+
+theorem sends1_program (t : Trace) : sends 1 (program t) = List.replicate (numErrors t) Msg.error := by
+  rw [program_eq]
+  simp only [List.append_assoc]
+  rw [sends1_map, List.singleton_append, sends_close, sends_errs]
+  simp
+
+theorem closesLast_map0 (ch : Nat) (es : List Entry) (q : List (Op Msg)) :
+    closesLast ch (es.map (fun e => Op.send 0 (Msg.entry e)) ++ q) = closesLast ch q := by
+  induction es with
+  | nil => rfl
+  | cons e es ih => simpa [closesLast] using ih
+
+theorem closesLast_errs (ch : Nat) (n : Nat) (q : List (Op Msg)) :
+    closesLast ch (List.replicate n (Op.send 1 Msg.error) ++ q) = closesLast ch q := by
+  induction n with
+  | zero => rfl
+  | succ n ih => simpa [List.replicate_succ, closesLast] using ih
+
+theorem quiet0_errs (n : Nat) : quiet 0 (List.replicate n (Op.send 1 Msg.error) ++ [Op.close 1]) = true := by
+  induction n with
+  | zero => rfl
+  | succ n ih => simpa [List.replicate_succ, quiet_cons, Op.chan] using ih
+
+theorem program_wf (t : Trace) : WFProg [0, 1] (program t) := by
+  refine ⟨fun op hop => ?_, fun ch hch => ?_⟩
+  · rw [program_eq] at hop
+    simp only [List.mem_append, List.mem_map, List.mem_cons, List.not_mem_nil, or_false, List.mem_replicate] at hop
+    rcases hop with ((⟨e, _, rfl⟩ | rfl) | ⟨_, rfl⟩) | rfl <;> simp [Op.chan]
+  · simp only [List.mem_cons, List.not_mem_nil, or_false] at hch
+    rcases hch with rfl | rfl
+    · refine ⟨by omega, ?_⟩
+      rw [program_eq]; simp only [List.append_assoc]
+      rw [closesLast_map0]
+      simpa [closesLast] using quiet0_errs (numErrors t)
+    · refine ⟨by omega, ?_⟩
+      rw [program_eq]; simp only [List.append_assoc]
+      rw [closesLast_map0]
+      simp only [List.cons_append, List.nil_append, closesLast]
+      rw [if_neg (by decide), closesLast_errs]
+      rfl
+
+/-- uniprot.Parse closes the entries channel before it sends any error -/
+theorem sendsBeforeClose0_program (t : Trace) : sendsBeforeClose0 (program t) = some 0 := by
+  rw [program_eq]; simp only [List.append_assoc]
+  induction entriesOf t.evs with
+  | nil => rfl
+  | cons e es ih => simpa [sendsBeforeClose0] using ih
+
 theorem numErrors_pos_iff (t : Trace) : 1 ≤ numErrors t ↔ ¬ Clean t := by
   unfold numErrors numErrorsFrom Clean
   constructor
@@ -94,45 +146,6 @@ theorem numErrors_pos_iff (t : Trace) : 1 ≤ numErrors t ↔ ¬ Clean t := by
           simpa using he ev hev
     · have : 0 < (t.evs.filter isErrEv).length := List.length_pos_iff.mpr he
       omega
-
-theorem sends0_loop : ∀ (saw : Bool) (evs : List Ev) (f : End),
-    sends 0 (loop saw evs f) = (entriesOf evs).map Msg.entry
-  | saw, [], .eof => by cases saw <;> rfl
-  | _, [], .err => rfl
-  | saw, .other :: r, f => by simpa [loop, entriesOf] using sends0_loop saw r f
-  | _, .start :: r, f => by simpa [loop, entriesOf] using sends0_loop true r f
-  | _, .entry e :: r, f => by simp [loop, entriesOf, sends_send, sends0_loop true r f]
-  | _, .entryErr e :: r, f => by simp [loop, entriesOf, sends_send, sends0_loop true r f]
-
-theorem sends1_loop : ∀ (saw : Bool) (evs : List Ev) (f : End),
-    sends 1 (loop saw evs f) = List.replicate (numErrorsFrom saw evs f) Msg.error
-  | saw, [], .eof => by cases saw <;> rfl
-  | saw, [], .err => by cases saw <;> rfl
-  | saw, .other :: r, f => by simpa [loop, numErrorsFrom, isErrEv, isStartEv] using sends1_loop saw r f
-  | saw, .start :: r, f => by
-    have := sends1_loop true r f
-    simpa [loop, numErrorsFrom, isErrEv, isStartEv] using this
-  | saw, .entry e :: r, f => by
-    have := sends1_loop true r f
-    simpa [loop, numErrorsFrom, isErrEv, isStartEv, sends_send] using this
-  | saw, .entryErr e :: r, f => by
-    have := sends1_loop true r f
-    simp only [loop, sends_send, if_true, if_neg (show ¬ (0 : Nat) = 1 by decide), this]
-    simp only [numErrorsFrom, List.filter_cons, isErrEv, if_true, List.length_cons, List.any_cons, isStartEv,
-      Bool.true_or, Bool.or_true]
-    rw [show (List.filter isErrEv r).length + 1 + finErrors true f = ((List.filter isErrEv r).length + finErrors true f) + 1 by omega]
-    rfl
-
-theorem sends0_program (t : Trace) : sends 0 (program t) = (entriesOf t.evs).map Msg.entry := by
-  simp [program, sends_append, sends0_loop]
-
-theorem sends1_program (t : Trace) : sends 1 (program t) = List.replicate (numErrors t) Msg.error := by
-  simp [program, sends_append, sends1_loop, numErrors]
-
-theorem sendsBeforeClose0_program (t : Trace) : sendsBeforeClose0 (program t) = some (numErrors t) := by
-  rw [program, sendsBeforeClose0_append_sends _ _ (fun op hop => (loop_sends false t.evs t.fin op hop).1),
-    sends1_loop]
-  simp [sendsBeforeClose0, numErrors]
 
 theorem consumer_stops (seq : Bool) : StopsAtClosed (consumer seq) := by
   cases seq
